@@ -94,11 +94,18 @@ def run_subprocess(acc):
     U = S.run_guesser(td, ['-r', 'v'])
     S.clear_session(td)
     cmd = [sys.executable, '-B', os.path.join(td, 'pcfg_guesser.py'), '-r', 'v']
-    env = dict(os.environ, PYTHONHASHSEED='1')
-    conds = ['devnull', 'closed', 'pipe_eof', 'pipe_open', 'pipe_status_then_eof']
+    # stdout of the child is a pipe: with the interpreter's default buffering (what `pcfg_guesser | hashcat` runs with) and unbuffered
+    env_default = {k: v for k, v in os.environ.items() if k != 'PYTHONUNBUFFERED'}
+    env_default['PYTHONHASHSEED'] = '1'
+    env_unbuf = dict(env_default, PYTHONUNBUFFERED='1')
+    env = env_default
+    conds = ['devnull', 'closed', 'pipe_eof', 'pipe_open', 'pipe_status_then_eof', 'pipe_open unbuffered', 'pipe_eof unbuffered']
     for cond in conds:
         acc.evals += 1
         kw = {}
+        env = env_unbuf if cond.endswith(' unbuffered') else env_default
+        label = cond + ('' if cond.endswith(' unbuffered') else ' (default output buffering)')
+        cond = cond.split(' ')[0]
         if cond == 'devnull':
             p = subprocess.Popen(cmd, stdin=subprocess.DEVNULL, stdout=subprocess.PIPE, stderr=subprocess.DEVNULL, env=env)
         elif cond == 'closed':
@@ -117,15 +124,15 @@ def run_subprocess(acc):
                 p.stdin.close()
         except subprocess.TimeoutExpired:
             p.kill()
-            acc.fail({'scenario': 'subprocess', 'stdin': cond}, 'real process with stdin=%s did not finish' % cond, 'subprocess-hang')
+            acc.fail({'scenario': 'subprocess', 'stdin': label}, 'real process with stdin=%s did not finish' % label, 'subprocess-hang')
             continue
         lines = out.decode('utf-8').split('\n')
         if lines and lines[-1] == '':
             lines.pop()
         acc.nontrivial += 1
         if lines != U.stdout:
-            acc.fail({'scenario': 'subprocess', 'stdin': cond},
-                     'real process with stdin=%s wrote %d lines, the uninterrupted stream has %d' % (cond, len(lines), len(U.stdout)), 'cut-without-quit')
+            acc.fail({'scenario': 'subprocess', 'stdin': label},
+                     'real process with stdin=%s wrote %d lines, the uninterrupted stream has %d' % (label, len(lines), len(U.stdout)), 'cut-without-quit')
         S.clear_session(td)
     # a status request and a quit that arrive in ONE chunk on a pipe that stays open (typed ahead, or written by a front end): both are acted on.
     # The ruleset is large enough (60^4 single-guess pre-terminals) for the quit to arrive long before the stream ends.
